@@ -78,6 +78,15 @@ func getOmega(omegas Omegas, operation OperationType) Omega {
 	return omegas[operation]
 }
 
+// hostCallLabel names a host call for logging; identifiers outside the name
+// table (unknown host calls) have no name.
+func hostCallLabel(operation OperationType) string {
+	if operation < 0 || int(operation) >= len(hostCallName) {
+		return "unknown"
+	}
+	return hostCallName[operation]
+}
+
 type Psi_H_ReturnType struct {
 	ExitReason ExitReason   // exit reason
 	Counter    uint32       // new instruction counter
@@ -127,7 +136,7 @@ func (h *Host) HostCall(pc ProgramCounter, instrCount uint64) (psi_result Psi_H_
 		}
 		omegaResult := omega(input)
 		pvmLogger.Debugf("%s host-call return: %d, gas : %d\nRegisters: %v\n",
-			hostCallName[input.Operation], omegaResult.ExitReason.GetReasonType(), h.Interpreter.Gas, h.Interpreter.Registers)
+			hostCallLabel(input.Operation), omegaResult.ExitReason.GetReasonType(), h.Interpreter.Gas, h.Interpreter.Registers)
 
 		switch omegaResult.ExitReason {
 		case ExitContinue:
